@@ -216,6 +216,15 @@ def monSpecAll (c : ImplCase) : List String :=
     | none => ["C02", "C05", "C06", "C08", "C01", "C19"].map fun p => s!"mon {p} ok"
     | some v => ["C02", "C05", "C06", "C08", "C01", "C19"].map fun p => s!"mon {p} FAIL {v}"
 
+/-! ### C05: a read whose transport read would block reports exactly that -/
+def monC05Block (c : ImplCase) : List String :=
+  if !c.newOk then [] else
+  let bad := c.ops.toList.find? fun o =>
+    isOp o "read" && o.io.getLast? == some "r:b" && !(o.res == ["err", "Io.WouldBlock"])
+  match bad with
+  | some o => [s!"mon C05 FAIL transport-read-would-block-but-read-reported {" ".intercalate (o.res.take 2)}"]
+  | none => ["mon C05 ok"]
+
 /-! ### C03: close-handshake safety on the implementation's trace -/
 def monC03 (c : ImplCase) : List String :=
   if !c.newOk || hasRawFrame c then [] else
@@ -300,17 +309,24 @@ def monC09 (c : ImplCase) : List String :=
   | some f => [s!"mon C09 FAIL malformed-frame opcode={f.opcode} fin={f.fin} rsv={f.rsv} masked={f.masked} minimal={f.minimal} len={f.payload.length}"]
   | none => ["mon C09 ok"]
 
-/-- C09, fresh key per frame: the keys of the frames a client put on the wire are, in order, a
-prefix of the keys the generator handed out (every frame draws exactly one key, also a frame
-handed back by `WriteBufferFull` and written again, or a raw frame that came with a key) -/
+/-- C09, fresh key per frame: the keys of the frames a client put on the wire are, in order, keys
+the generator handed out, none used twice (every attempt to queue a frame draws a key, also for a
+frame handed back by `WriteBufferFull` and written again, or a raw frame that came with a key) -/
 def monC09Keys (c : ImplCase) : List String :=
   if !c.newOk || c.role != .client then [] else
   let (frames, _) := wireFrames (allWire c)
   let drawn := c.ops.toList.foldl (fun acc o => acc ++ o.masks.take o.mu) []
   let onWire := frames.map (·.key)
+  -- a frame that was refused (`WriteBufferFull`) or put back has drawn a key that never reaches
+  -- the wire, so the keys on the wire are a subsequence, each generated key used at most once
+  let rec subseq (xs ys : List Bytes) : Bool :=
+    match xs, ys with
+    | [], _ => true
+    | _ :: _, [] => false
+    | x :: xs', y :: ys' => if x == y then subseq xs' ys' else subseq (x :: xs') ys'
   if frames.any (fun f => !f.masked) then ["mon C09 FAIL client-frame-unmasked"]
-  else if onWire.length ≤ drawn.length && onWire == drawn.take onWire.length then ["mon C09 ok"]
-  else ["mon C09 FAIL frame-key-is-not-the-next-generated-key"]
+  else if subseq onWire drawn then ["mon C09 ok"]
+  else ["mon C09 FAIL frame-key-is-not-a-freshly-generated-key"]
 
 def unhexList : List Char → Bytes
   | a :: b :: rest =>
@@ -392,6 +408,15 @@ def monC11 (c : ImplCase) : List String :=
       if wasAwaiting && (isOp o "read" || isOp o "flush") && outboundClean o && dirty
           && (match resErr o with | some e => e == "Io.WouldBlock" | none => true) then
         bad := bad <|> some "pong-written-but-not-flushed"
+      -- a user write of a data message or ping that returns Ok retries the postponed pong too
+      let dataWrite := isWriteKind o "text" || isWriteKind o "binary" || isWriteKind o "ping"
+      if wasAwaiting && dataWrite && o.res.head? == some "ok" && dirty then
+        bad := bad <|> some "write-ok-but-pong-not-flushed"
+      match pendingPing with
+      | some p =>
+        if dataWrite && o.res.head? == some "ok" && open_ && c.cfg.maxw ≥ 2 ^ 30 && !(pongs.contains p) then
+          bad := bad <|> some "write-ok-but-pending-pong-not-sent"
+      | none => pure ()
       if pongs.length > pongsSeen && dirty then pongAwaitsFlush := true
       if !dirty then pongAwaitsFlush := false
       pongsSeen := pongs.length
@@ -615,7 +640,7 @@ def monMem (c : ImplCase) : List String :=
 def all (c : ImplCase) : List String :=
   let m10 := monC10 c
   let m09 := monC09 c
-  monC07 c ++ monMem c ++ monSpecAll c ++ monC03 c ++ m09 ++ monC09Keys c ++ m10 ++ monC11 c ++ monC12 c ++ monC13 c ++ monC14 c ++ monC01 c
+  monC07 c ++ monMem c ++ monSpecAll c ++ monC05Block c ++ monC03 c ++ m09 ++ monC09Keys c ++ m10 ++ monC11 c ++ monC12 c ++ monC13 c ++ monC14 c ++ monC01 c
     ++ alias m10 "C10" "C19" ++ alias m09 "C09" "C19" ++ alias m10 "C10" "C01"
     ++ alias (monC13 c) "C13" "C10" ++ alias ((monC13 c).filter (·.contains "FAIL")) "C13" "C12"
     ++ alias ((monC13 c).filter (·.contains "FAIL")) "C13" "C04" ++ alias ((monC03 c).filter (·.contains "FAIL")) "C03" "C04"
